@@ -1056,8 +1056,11 @@ def _replay(job, phase):
     res['direct'] = direct
     truth = truth_g if truth_g[0] != 'other' else truth_s
     for sname, out in direct.items():
+        # Not this property: rsome's solver interface versus the formula.  Reported (as C11) only when two
+        # independent solvers agree on what the formula denotes and optimality itself is in question.
         c3 = compare(truth, out, tol)
-        if c3 in ('status', 'value') and wc and solver_pair_ok:
+        decisive = (truth[0] == 'optimal') != (out[0] == 'optimal') or c3 == 'value'
+        if c3 in ('status', 'value') and decisive and wc and c0 == 'ok':
             tag = 'binary-with-user-bound' if any(
                 F['vtype'][j] == 'B' and (F['lb'][j] > -INF or F['ub'][j] < INF) for j in range(P['n'])) else 'other'
             finding('C11:solve-differs-from-formula:%s:%s' % (sname, tag),
